@@ -130,6 +130,7 @@ def drive(tier):
 def run(tier):
     rep = Report("C07", tier)
     rep.add_mc("MC_VMBytes", vlib.run_mc("MC_VMBytes", cfg="MC_VMBytes_quick" if tier == "quick" else "MC_VMBytes", heap="16g"))
+    rep.add_mc("MC_VMBytes_live", vlib.run_mc("MC_VMBytes", cfg="MC_VMBytes_live"))     # liveness proper: every verification reaches a verdict (WF)
     recs, judged = drive(tier)
     mm = vlib.validate("Trace_ScriptVM", recs)
     rep.apply_mismatches(recs, mm)
